@@ -1,6 +1,6 @@
 (* C14 — Array is a list of fixed-width items over one bit buffer (statements; ArrayProofs.v).
    mk its tr = concat its ++ tr is the abstraction "data = item encodings followed by trailing bits". *)
-From BS Require Import Prims BitsCore Mutators ArrayM ArrayProofs.
+From BS Require Import Prims BitsCore Mutators SeqProofs ArrayM ArrayProofs ArraySlice.
 Open Scope Z_scope.
 Theorem C14_len_and_trailing : forall w its tr, 0 < w -> wfA w its tr -> arr_len w (mk its tr) = zlen its /\ trailing w (mk its tr) = tr.
 Proof. intros. split; [now apply arr_len_mk|now apply trailing_mk]. Qed.
@@ -20,6 +20,14 @@ Proof. intros. now apply append_refused_with_trailing_bits. Qed.
 Theorem C14_insert : forall w its tr i e, 0 < w -> wfA w its tr -> e <> [] ->
   arr_insert w (mk its tr) i e = Ok (mk (list_ins its (Z.to_nat (Z.min (if i <? 0 then Z.max (i + zlen its) 0 else i) (zlen its))) e) tr).
 Proof. intros. now apply insert_is_list_insert. Qed.
+(* slicing with ANY key (any start/stop, positive or negative step): the data of a[key] is the concatenation of the Python list slice of the
+   items - in particular it carries no trailing bits; a zero step is refused *)
+Theorem C14_slicing : forall w its tr k, 0 < w -> wfA w its tr ->
+  arr_getslice w (mk its tr) k = res_map (@concat bool) (seq_slice [] its k).
+Proof. intros. now apply getslice_is_list_slice. Qed.
+Example C14_slicing_nonvacuous :
+  arr_getslice 2 [true;false; false;true; true;true; false;false; true] (mkslice (Some 3) None (Some (-2))) = Ok [false;false; false;true].
+Proof. vm_compute. reflexivity. Qed.
 Print Assumptions C14_len_and_trailing.
 Print Assumptions C14_index.
 Print Assumptions C14_item_assignment.
@@ -27,3 +35,4 @@ Print Assumptions C14_item_deletion.
 Print Assumptions C14_append.
 Print Assumptions C14_append_refused_with_trailing_bits.
 Print Assumptions C14_insert.
+Print Assumptions C14_slicing.
